@@ -111,7 +111,7 @@ func renderHex(r *monitor.Rand, b []byte) hexRender {
 }
 
 func runHex(cfg *config, res *monitor.Result) {
-	n := 100000
+	n := 300000
 	if cfg.thorough() {
 		n = 4000000
 	}
